@@ -62,6 +62,16 @@ pub(crate) enum KNNAlgorithm<T: RealNumber, D: Distance<Vec<T>, T>> {
     CoverTree(CoverTree<Vec<T>, T, D>),
 }
 
+impl<T: RealNumber, D: Distance<Vec<T>, T>> PartialEq for KNNAlgorithm<T, D> {
+    fn eq(&self, other: &Self) -> bool {
+        match (self, other) {
+            (KNNAlgorithm::LinearSearch(a), KNNAlgorithm::LinearSearch(b)) => a == b,
+            (KNNAlgorithm::CoverTree(a), KNNAlgorithm::CoverTree(b)) => a == b,
+            _ => false,
+        }
+    }
+}
+
 impl KNNAlgorithmName {
     pub(crate) fn fit<T: RealNumber, D: Distance<Vec<T>, T>>(
         &self,
